@@ -2013,6 +2013,396 @@ func c09ShareOracle(c c09ShareCase) func(Resp) string {
 	}
 }
 
+// ---------------------------------------------------------------- sharing-positions
+//
+// Every expression form that can hand out an EXISTING cell (a variable, a
+// parenthesised variable, an assignment / chained / compound assignment, ++/--,
+// a match expression yielding a variable or a member, a match binding, member /
+// index chains, document members, functions returning a parameter / a global / a
+// member, results of pluck / sort / push / pop) in every position that STORES a
+// value (array and object literal elements at any depth, call and method
+// arguments, right sides of assignments to variables / members / indices /
+// document paths, chained assignments, return values, match bodies, for-in
+// variables, sort / pluck results).  Then the stored copy and the origin are
+// mutated in turn.  A scalar must never change through the other name; a
+// container must show the same contents through both.
+
+type c09Src struct {
+	text    string // the expression; P2 = a second literal of the payload's kind
+	origin  string // the name whose cell the expression hands out
+	scalar  bool   // only meaningful for scalar payloads (the expression coerces)
+	local   bool   // creates its origin name where it is evaluated (not usable inside a helper function)
+	needFns string
+}
+
+var c09Srcs = []c09Src{
+	{text: "a", origin: "a"}, {text: "(a)", origin: "a"}, {text: "((a))", origin: "a"},
+	{text: "a = P2", origin: "a"}, {text: "(a = P2)", origin: "a"}, {text: "z = a", origin: "z", local: true}, {text: "z = y = a", origin: "z", local: true},
+	{text: "z = y = P2", origin: "y", local: true}, {text: "o.m = P2", origin: "o.m"}, {text: "l[0] = a", origin: "l[0]"}, {text: "$.f = P2", origin: "$.f"},
+	{text: "a += 1", origin: "a", scalar: true}, {text: "a -= 1", origin: "a", scalar: true}, {text: "o.m *= 2", origin: "o.m", scalar: true}, {text: "l[0] /= 2", origin: "l[0]", scalar: true},
+	{text: "++a", origin: "a", scalar: true}, {text: "a++", origin: "a", scalar: true}, {text: "--o.m", origin: "o.m", scalar: true}, {text: "l[0]--", origin: "l[0]", scalar: true}, {text: "++$.f", origin: "$.f", scalar: true},
+	{text: "match (1) { _ => a }", origin: "a"}, {text: "match (1) { 2 => 0, _ => o.m }", origin: "o.m"}, {text: "match (a) { v => v }", origin: "a"},
+	{text: "match (l) { [v] => v }", origin: "l[0]"}, {text: "match (1) { _ => match (2) { _ => l[0] } }", origin: "l[0]"}, {text: "match (1) { _ => (a = P2) }", origin: "a"},
+	{text: "match (o.m) { v => v }", origin: "o.m"}, {text: "match (1) { _ => $.f }", origin: "$.f"},
+	{text: "$.f", origin: "$.f"}, {text: "o.m", origin: "o.m"}, {text: "o['m']", origin: "o.m"}, {text: "l[0]", origin: "l[0]"}, {text: "l[-1]", origin: "l[0]"}, {text: "oo.p.q", origin: "oo.p.q"},
+	{text: "oo['p'].q", origin: "oo.p.q"}, {text: "(o).m", origin: "o.m"}, {text: "(oo.p).q", origin: "oo.p.q"}, {text: "$['f']", origin: "$.f"},
+	{text: "id(a)", origin: "a"}, {text: "getg()", origin: "g"}, {text: "geto()", origin: "o.m"}, {text: "first(l)", origin: "l[0]"}, {text: "id(id(o.m))", origin: "o.m"},
+	{text: "[a][0]", origin: "a"}, {text: "{k: a}.k", origin: "a"}, {text: "[a].pop()", origin: "a"}, {text: "o.pluck('m').m", origin: "o.m"}, {text: "l.sort()[0]", origin: "l[0]"},
+	{text: "l.push(0)[0]", origin: "l[0]"}, {text: "[o.m].popfirst()", origin: "o.m"}, {text: "oo.p.pluck('q').q", origin: "oo.p.q"},
+}
+
+type c09Dst struct {
+	store string // statements with SRC; "" when the position is a wrapper (kind != "")
+	t     string // the name of the stored copy
+	kind  string // "" plain | "fn" (T is a parameter: everything happens in the function) | "forin" | "ret" (SRC evaluated in a helper) | "alias" (aliasing is the documented behaviour: model comparison only)
+}
+
+var c09Dsts = []c09Dst{
+	{store: "t = [SRC, 0]", t: "t[0]"}, {store: "t = [0, [SRC]]", t: "t[1][0]"}, {store: "t = [0, SRC]", t: "t[-1]"}, {store: "t = {k: SRC}", t: "t.k"}, {store: "t = {k: {j: SRC}}", t: "t.k.j"},
+	{store: "t = {k: [0, SRC]}", t: "t.k[1]"}, {store: "t = [{j: SRC}]", t: "t[0].j"},
+	{store: "t = []\n  t.push(SRC)", t: "t[0]"}, {store: "t = [0].push(SRC)", t: "t[1]"}, {store: "t = {k: []}\n  t.k.push(SRC)", t: "t.k[0]"},
+	{store: "t = SRC", t: "t"}, {store: "t.k = SRC", t: "t.k"}, {store: "t[0] = SRC", t: "t[0]"}, {store: "t[2] = SRC", t: "t[2]"}, {store: "$.t = SRC", t: "$.t"}, {store: "$.deep.t[1] = SRC", t: "$.deep.t[1]"},
+	{store: "t = u2 = SRC", t: "t"}, {store: "t = (SRC)", t: "t"}, {store: "t = id(SRC)", t: "t"}, {store: "t = [id(SRC)]", t: "t[0]"}, {store: "t = second(0, SRC)", t: "t"},
+	{store: "t = match (SRC) { v => [v] }", t: "t[0]"}, {store: "t = match (1) { _ => SRC }", t: "t"}, {store: "t = [match (1) { _ => SRC }]", t: "t[0]"}, {store: "t = {k: match (1) { _ => SRC }}", t: "t.k"},
+	{store: "t = [match (SRC) { v => v }]", t: "t[0]"}, {store: "t = [0]\n  t.push(match (1) { _ => SRC })", t: "t[1]"}, {store: "t = id(match (1) { _ => SRC })", t: "t"},
+	{store: "t = [SRC].sort()", t: "t[0]"}, {store: "t = {k: SRC}.pluck('k')", t: "t.k"}, {store: "t = [[SRC]].pop()", t: "t[0]"},
+	{t: "t", kind: "ret"}, {t: "t[0]", kind: "ret"},
+	{t: "p", kind: "fn"}, {t: "q", kind: "fn"},
+	{t: "e", kind: "forin"}, {t: "e2", kind: "forin"},
+	{t: "v", kind: "alias"},
+}
+
+const c09ShareFuncs = "function id(x) { return x }\nfunction second(x, y) { return y }\nfunction getg() { return g }\nfunction geto() { return o.m }\nfunction first(x) { return x[0] }\n"
+
+type c09Payload struct {
+	lit, lit2 string
+	kind      byte // s scalar, a array, o object
+}
+
+var c09Payloads = []c09Payload{
+	{"5", "8", 's'}, {"'abc'", "'de'", 's'}, {"true", "false", 's'}, {"2.5", "7.5", 's'}, {"null", "null", 's'}, {"0", "1", 's'}, {"'10'", "'20'", 's'}, {"(-3)", "4", 's'},
+	{"[1, 2, 3]", "[4, 5, 6]", 'a'}, {"[[1], 2]", "[[3], 4]", 'a'}, {"[5]", "[6]", 'a'},
+	{"{k: 1, list: [1]}", "{k: 2, list: [2]}", 'o'}, {"{}", "{k: 0}", 'o'},
+}
+
+var c09ScalarMuts = []string{"X = 6", "X++", "X += 1", "w = --X", "X = X + 'x'", "X *= 3", "X = [1]", "X -= 2", "X /= 2", "w = ++X", "X--", "X = null", "X = 'new'"}
+
+// c09SharePos builds one program. ok=false when the combination makes no sense.
+func c09SharePos(r *rand.Rand, src c09Src, dst c09Dst, pl c09Payload) (prog string, mode string, ok bool) {
+	if src.scalar && pl.kind != 's' {
+		return "", "", false
+	}
+	inMatchBody := strings.Contains(dst.store, "_ => SRC")
+	if src.local && (dst.kind == "ret" || inMatchBody) {
+		return "", "", false // the origin name would be created in the helper's / the match's frame and vanish with it
+	}
+	srcText := strings.ReplaceAll(src.text, "P2", pl.lit2)
+	if inMatchBody && strings.HasPrefix(srcText, "{") {
+		srcText = "(" + srcText + ")" // a case body starting with { is a block
+	}
+	origin, t := src.origin, dst.t
+	val := func() string { return pick(r, []string{"1", "7", "'s'", "true", "null", "2.5", "[8, 9]", "{z: 1}"}) }
+	mut := func(x string) string {
+		var m string
+		switch pl.kind {
+		case 's':
+			m = pick(r, c09ScalarMuts)
+		case 'a':
+			m = pick(r, []string{"X[0] = V", "X.push(V)", "X.pop()", "X[-1] = V", "X[0]++", "X[1] += 2", "X[3] = V", "X.popfirst()", "X[0] = [V]"})
+		default:
+			m = pick(r, []string{"X.k = V", "X.fresh = V", "X.k++", "X.deep.er = V", "X.list.push(V)", "X['k'] = V", "X.k += 1"})
+		}
+		return strings.ReplaceAll(strings.ReplaceAll(m, "X", x), "V", val())
+	}
+	// the observation / mutation script, run where both names are visible
+	var body strings.Builder
+	n1, n2 := 1+r.Intn(3), 1+r.Intn(3)
+	if pl.kind == 's' {
+		mode = "scalar"
+		body.WriteString("  print 'A', " + origin + "\n")
+		for i := 0; i < n1; i++ {
+			body.WriteString("  " + mut(t) + "\n  print 'A', " + origin + "\n")
+		}
+		body.WriteString("  print 'K', " + t + "\n")
+		for i := 0; i < n2; i++ {
+			body.WriteString("  " + mut(origin) + "\n  print 'K', " + t + "\n")
+		}
+	} else {
+		mode = "container"
+		show := "  print '--'\n  print " + origin + "\n  print " + t + "\n"
+		body.WriteString(show)
+		for i := 0; i < n1+n2; i++ {
+			body.WriteString("  " + mut(pick(r, []string{origin, t})) + "\n" + show)
+		}
+	}
+	setup := fmt.Sprintf("  a = %s\n  g = %s\n  o = {m: %s}\n  l = [%s]\n  oo = {p: {q: %s}}\n  $.f = %s\n", pl.lit, pl.lit, pl.lit, pl.lit, pl.lit, pl.lit)
+	funcs := c09ShareFuncs
+	var main string
+	switch dst.kind {
+	case "":
+		main = setup + "  " + strings.ReplaceAll(dst.store, "SRC", srcText) + "\n" + body.String()
+	case "ret":
+		funcs += "function ret() { return " + srcText + " }\n"
+		st := "t = ret()"
+		if t == "t[0]" {
+			st = "t = [ret()]"
+		}
+		main = setup + "  " + st + "\n" + body.String()
+	case "fn":
+		call := "mutp(" + srcText + ", 0)"
+		if t == "q" {
+			call = "mutp(0, " + srcText + ")"
+		}
+		funcs += "function mutp(p, q) {\n" + body.String() + "}\n"
+		main = setup + "  " + call + "\n"
+	case "forin":
+		head := "for (e in [" + srcText + "])"
+		if t == "e2" {
+			head = "for (k2, e2 in {k: " + srcText + "})"
+		}
+		main = setup + "  " + head + " {\n" + body.String() + "  }\n"
+	case "alias":
+		// a match binding IS the subject's cell: assignments to it reach the origin (documented); the model decides
+		mode = "alias"
+		main = setup + "  match (" + srcText + ") { v => {\n" + body.String() + "  } }\n  print 'after', " + origin + "\n"
+	}
+	return funcs + "{\n" + main + "}\n", mode, true
+}
+
+func c09SharePosOracle(mode string) func(Resp) string {
+	return func(i Resp) string {
+		if i["class"] != "ok" && i["class"] != "runtime" {
+			return "class " + i["class"] + " " + i["msg"]
+		}
+		if mode == "alias" {
+			return ""
+		}
+		lines := strings.Split(strings.TrimSuffix(string(i.Bytes("out")), "\n"), "\n")
+		if mode == "scalar" {
+			firstA, firstK := "", ""
+			for _, l := range lines {
+				switch {
+				case strings.HasPrefix(l, "A "):
+					if firstA == "" {
+						firstA = l
+					} else if l != firstA {
+						return fmt.Sprintf("a scalar changed when the value stored from it was mutated: the origin printed %q, then %q", firstA, l)
+					}
+				case strings.HasPrefix(l, "K "):
+					if firstK == "" {
+						firstK = l
+					} else if l != firstK {
+						return fmt.Sprintf("a stored scalar changed when its origin was mutated: the copy printed %q, then %q", firstK, l)
+					}
+				}
+			}
+			return ""
+		}
+		for k := 0; k+2 < len(lines); k++ {
+			if lines[k] == "--" && lines[k+1] != "--" && lines[k+2] != "--" && lines[k+1] != lines[k+2] {
+				return fmt.Sprintf("two references to one container show different contents: %q vs %q", lines[k+1], lines[k+2])
+			}
+		}
+		return ""
+	}
+}
+
+func c09GenSharePos(r *rand.Rand, tier string, emit func(Case)) {
+	one := func(src c09Src, dst c09Dst, pl c09Payload) {
+		prog, mode, ok := c09SharePos(r, src, dst, pl)
+		if !ok {
+			return
+		}
+		emit(Case{Req: RunReq(prog, nil, []File{{Name: "in.json", Data: []byte(`{"keep": [1, {"k": 2}]}`)}}, true),
+			Fields: []string{"class", "out", "json"}, Oracle: c09SharePosOracle(mode), NonTrivial: c09NT,
+			Meta: metaProg(prog, "source-form", src.text, "position", strings.ReplaceAll(dst.store, "\n  ", "; ")+dst.kind, "stored-as", dst.t, "payload", pl.lit, "mode", mode,
+				"row", src.text, "col", strings.ReplaceAll(dst.store, "\n  ", "; ")+dst.kind+" "+dst.t)})
+	}
+	scalars, conts := c09Payloads[:8], c09Payloads[8:]
+	for _, src := range c09Srcs {
+		for _, dst := range c09Dsts {
+			// every source form x position: a scalar and a container payload (thorough: three each)
+			for k := 0; k < tierN(tier, 1, 3); k++ {
+				one(src, dst, pick(r, scalars))
+				one(src, dst, pick(r, conts))
+			}
+		}
+	}
+	for i, n := 0, tierN(tier, 2500, 40000); i < n; i++ {
+		one(pick(r, c09Srcs), pick(r, c09Dsts), pick(r, c09Payloads))
+	}
+}
+
+// ---------------------------------------------------------------- update-aliases
+//
+// ++ / -- / compound assignment / assignment applied to names that hold a COPY of
+// a number (string, bool, null) living elsewhere: for-in loop variables of every
+// loop form over variables and over the document, members of the results of
+// container-returning methods, parameters, match bindings of literal subjects;
+// and assignments whose target index / key shares a variable with a
+// side-effecting right-hand side.  The place the copy was taken from must keep
+// its value; the target is the one addressed BEFORE the right side ran.
+
+type c09Upd struct {
+	name  string
+	prog  string // the rule body
+	funcs string
+	doc   string
+	// oracle: "A" = every line starting with "A " is identical; "want" = exact output
+	want string
+}
+
+var c09UpdOps = []string{"X++", "X--", "w = ++X", "w = --X", "X += 1", "X -= 1", "X *= 2", "X /= 2", "X = X + 1", "X = 9", "X = X + 'z'", "X = null", "X += X", "X = [X]"}
+
+func c09UpdCase(r *rand.Rand) c09Upd {
+	op := func(x string) string { return strings.ReplaceAll(pick(r, c09UpdOps), "X", x) }
+	ops := func(xs ...string) string {
+		var b strings.Builder
+		for i, n := 0, 1+r.Intn(3); i < n; i++ {
+			b.WriteString("    " + op(pick(r, xs)) + "\n")
+		}
+		return b.String()
+	}
+	arrLit := pick(r, []string{"[1, 2, 3]", "[0, -1.5, 7]", "['a', 'b']", "[true, null, 3]", "[5]", "[10, '10', 0.5, null]"})
+	objLit := pick(r, []string{"{a: 1, b: 2}", "{k: 0, j: -2.5}", "{x: 's', y: true, z: null}", "{only: 4}"})
+	strLit := pick(r, []string{"'abc'", "'789'", "'x'", "'a\xc3\xa9z'"})
+	docArr := pick(r, []string{`[1, 2, 3]`, `[0.5, "s", null, true]`, `[7]`})
+	docObj := pick(r, []string{`{"a": 1, "b": 2}`, `{"n": 0, "list": [1, 2], "o": {"k": 5}}`, `{"k": "v", "z": null}`})
+	switch r.Intn(16) {
+	case 0: // for-in over an array variable, element (and index) variable updated
+		two := chance(r, 0.5)
+		head, vars := "for (x in c)", []string{"x"}
+		if two {
+			head, vars = "for (x, i in c)", []string{"x", "i"}
+		}
+		return c09Upd{name: "forin-array-var", prog: "  c = " + arrLit + "\n  print 'A', c\n  " + head + " {\n" + ops(vars...) + "    print 'X', " + strings.Join(vars, ", ") + "\n    print 'A', c\n  }\n  print 'A', c\n"}
+	case 1: // for-in over an object variable: key and value variables
+		two := chance(r, 0.6)
+		head, vars := "for (k in c)", []string{"k"}
+		if two {
+			head, vars = "for (k, v in c)", []string{"k", "v"}
+		}
+		return c09Upd{name: "forin-object-var", prog: "  c = " + objLit + "\n  print 'A', c\n  " + head + " {\n" + ops(vars...) + "    print 'X', " + strings.Join(vars, ", ") + "\n    print 'A', c\n  }\n  print 'A', c\n"}
+	case 2: // for-in over a string: character and offset variables
+		two := chance(r, 0.6)
+		head, vars := "for (ch in c)", []string{"ch"}
+		if two {
+			head, vars = "for (ch, off in c)", []string{"ch", "off"}
+		}
+		return c09Upd{name: "forin-string-var", prog: "  c = " + strLit + "\n  print 'A', c\n  " + head + " {\n" + ops(vars...) + "    print 'X', " + strings.Join(vars, ", ") + "\n    print 'A', c\n  }\n  print 'A', c\n"}
+	case 3: // for-in over the document root / a member of it (array)
+		c, doc := "$", docArr
+		if chance(r, 0.5) {
+			c, doc = "$.list", `{"list": `+docArr+`, "n": 1}`
+		}
+		head, vars := "for (x in "+c+")", []string{"x"}
+		if chance(r, 0.5) {
+			head, vars = "for (x, i in "+c+")", []string{"x", "i"}
+		}
+		return c09Upd{name: "forin-array-document", doc: "[" + doc + "]", prog: "  print 'A', $\n  " + head + " {\n" + ops(vars...) + "    print 'X', " + strings.Join(vars, ", ") + "\n    print 'A', $\n  }\n  print 'A', $\n"}
+	case 4: // for-in over the document root / a member (object)
+		c, doc := "$", docObj
+		if chance(r, 0.4) {
+			c, doc = "$.o", `{"o": `+docObj+`, "n": 1}`
+		}
+		head, vars := "for (k in "+c+")", []string{"k"}
+		if chance(r, 0.7) {
+			head, vars = "for (k, v in "+c+")", []string{"k", "v"}
+		}
+		return c09Upd{name: "forin-object-document", doc: doc, prog: "  print 'A', $\n  " + head + " {\n    if (v is array || v is object) continue\n" + ops(vars...) + "    print 'X', " + strings.Join(vars, ", ") + "\n    print 'A', $\n  }\n  print 'A', $\n"}
+	case 5: // nested for-in: inner loop variable over an element of the outer container
+		return c09Upd{name: "forin-nested", prog: "  c = [[1, 2], [3]]\n  print 'A', c\n  for (row in c) {\n    for (x, i in row) {\n" + ops("x", "i") + "      print 'X', x, i\n    }\n    print 'A', c\n  }\n  print 'A', c\n"}
+	case 6: // members of a plucked object
+		return c09Upd{name: "pluck-result", prog: "  c = {k: 1, j: 2.5, s: 'q'}\n  print 'A', c\n  t = c.pluck('k', 'j', 's', 'none')\n" + ops("t.k", "t.j", "t.s", "t.none") + "  print 'X', t\n  print 'A', c\n"}
+	case 7: // elements of a sorted copy, of split, of a popped / pushed value
+		return c09Upd{name: "sort-result", prog: "  c = " + pick(r, []string{"[3, 1, 2]", "[0.5, -1]", "['b', 'a']"}) + "\n  print 'A', c\n  t = c.sort()\n" + ops("t[0]", "t[1]", "t[-1]") + "  print 'X', t\n  print 'A', c\n  v = [c[0]].pop()\n" + ops("v") + "  print 'A', c\n"}
+	case 8: // parameters: every update inside the callee
+		arg := pick(r, []string{"a", "c[0]", "o.k", "$.n", "c[-1]", "(a)", "a = 4", "o['k']"})
+		return c09Upd{name: "parameter", doc: `{"n": 3}`, funcs: "function upd(p, q) {\n" + ops("p", "q") + "  return p\n}\n",
+			prog: "  a = 1\n  c = [2, 3]\n  o = {k: 5}\n  print 'A', c, o, $\n  r1 = upd(" + arg + ", " + arg + ")\n  print 'X', r1\n  print 'A', c, o, $\n  a0 = a\n  print 'B', a0\n  r2 = upd(a, a)\n  print 'B', a\n"}
+	case 9: // match bindings whose subject is an array LITERAL (its elements are copies)
+		return c09Upd{name: "match-literal-subject", prog: "  a = 1\n  o = {k: 2}\n  c = [3]\n  print 'A', a, o, c\n  match ([a, o.k, c[0]]) { [u, v, w] => {\n" + ops("u", "v", "w") + "    print 'X', u, v, w\n  } }\n  print 'A', a, o, c\n"}
+	case 10: // the value handed out by a match expression / a function, then updated
+		src := pick(r, []string{"match (1) { _ => a }", "match (a) { v => v }", "id(a)", "geta()", "match (1) { _ => o.k }", "first(c)"})
+		return c09Upd{name: "result-then-update", funcs: "function id(x) { return x }\nfunction geta() { return a }\nfunction first(x) { return x[0] }\n",
+			prog: "  a = 1\n  o = {k: 1}\n  c = [1]\n  print 'A', a, o, c\n  t = " + src + "\n" + ops("t") + "  print 'X', t\n  print 'A', a, o, c\n  u = [" + src + "]\n" + ops("u[0]") + "  print 'A', a, o, c\n"}
+	case 11: // the copy taken BEFORE the origin is updated keeps its value
+		return c09Upd{name: "origin-updated", prog: "  a = " + pick(r, []string{"1", "2.5", "'s'", "0"}) + "\n  c = [a]\n  o = {k: a}\n  b = a\n  for (x in [a]) { keep = x }\n  print 'A', c, o, b, keep\n" + ops("a") + "  print 'A', c, o, b, keep\n" + ops("a") + "  print 'A', c, o, b, keep\n"}
+	default: // the target is addressed before the right-hand side runs
+		i0 := r.Intn(3)
+		type snip struct{ code, want string }
+		pad := func(n int, last string) string { // [null x n, last]
+			parts := make([]string, n+1)
+			for i := range parts {
+				parts[i] = "null"
+			}
+			parts[n] = last
+			return "[" + strings.Join(parts, ", ") + "]"
+		}
+		snips := []snip{
+			{fmt.Sprintf("i = %d; a[i] = i++; print i, a", i0), fmt.Sprintf("%d %s\n", i0+1, pad(i0, fmt.Sprint(i0)))},
+			{fmt.Sprintf("i = %d; a = []; a[i] = ++i; print i, a", i0), fmt.Sprintf("%d %s\n", i0+1, pad(i0, fmt.Sprint(i0+1)))},
+			{fmt.Sprintf("i = %d; a = []; a[i] = i--; print i, a", i0), fmt.Sprintf("%d %s\n", i0-1, pad(i0, fmt.Sprint(i0)))},
+			{fmt.Sprintf("n = %d; a = []; a[n] = n = n + 1; print n, a", i0), fmt.Sprintf("%d %s\n", i0+1, pad(i0, fmt.Sprint(i0+1)))},
+			{fmt.Sprintf("i = %d; a = []; a[i++] = i; print i, a", i0), fmt.Sprintf("%d %s\n", i0+1, pad(i0, fmt.Sprint(i0+1)))},
+			{fmt.Sprintf("i = %d; a = []; a[i] = [i++, i++]; print i, a", i0), fmt.Sprintf("%d %s\n", i0+2, pad(i0, fmt.Sprintf("[%d, %d]", i0, i0+1)))},
+			{fmt.Sprintf("i = %d; o = {}; o[i] = i++; print i, o", i0), fmt.Sprintf("%d {\"%d\": %d}\n", i0+1, i0, i0)},
+			{fmt.Sprintf("i = %d; o = {}; o.k[i] = i++; print i, o", i0), fmt.Sprintf("%d {\"k\": %s}\n", i0+1, pad(i0, fmt.Sprint(i0)))},
+			{fmt.Sprintf("i = %d; a = []; a[i][0] = i++; print i, a", i0), fmt.Sprintf("%d %s\n", i0+1, pad(i0, fmt.Sprintf("[%d]", i0)))},
+			{"k = 'x'; o = {}; o[k] = (k = 'z'); print k, o", "z {\"x\": \"z\"}\n"},
+			{"k = 'p'; o = {}; o[k] = k = k + 'q'; print k, o", "pq {\"p\": \"pq\"}\n"},
+			{"i = 1; a = [5, 6, 7]; a[i] = i--; print i, a", "0 [5, 1, 7]\n"},
+			{"i = 0; a = [5, 6]; a[i] += i++; print i, a", "1 [5, 6]\n"},
+			{"i = 2; a = []; a[i] = i -= 2; print i, a", "0 [null, null, 0]\n"},
+			{"i = 0; a = []; a[i] = bump(); print i, a", "1 [1]\n"},
+			{"i = 0; o = {}; o[i] = bump(); o[i] = bump(); print i, o", "2 {\"0\": 1, \"1\": 2}\n"},
+			{fmt.Sprintf("i = %d; $.list[i] = i++; print i, $.list", i0), fmt.Sprintf("%d %s\n", i0+1, pad(i0, fmt.Sprint(i0)))},
+			{fmt.Sprintf("i = %d; a = []; for (x in [1, 2]) { a[i] = i++ }\n  print i, a", i0), fmt.Sprintf("%d %s\n", i0+2, strings.TrimSuffix(pad(i0, fmt.Sprint(i0)), "]")+fmt.Sprintf(", %d]", i0+1))},
+		}
+		sn := pick(r, snips)
+		return c09Upd{name: "target-before-rhs", funcs: "function bump() { i = i + 1\n return i }\n", doc: `{"n": 1}`, prog: "  " + sn.code + "\n", want: sn.want}
+	}
+}
+
+func c09UpdOracle(u c09Upd) func(Resp) string {
+	return func(i Resp) string {
+		if i["class"] != "ok" && i["class"] != "runtime" {
+			return "class " + i["class"] + " " + i["msg"]
+		}
+		out := string(i.Bytes("out"))
+		if u.want != "" {
+			if i["class"] != "ok" || out != u.want {
+				return fmt.Sprintf("an assignment must store into the location addressed before its right-hand side ran: got class %s out %q, want %q", i["class"], out, u.want)
+			}
+			return ""
+		}
+		first := map[byte]string{}
+		for _, l := range strings.Split(out, "\n") {
+			if len(l) > 2 && (l[0] == 'A' || l[0] == 'B') && l[1] == ' ' {
+				if f, ok := first[l[0]]; !ok {
+					first[l[0]] = l
+				} else if f != l {
+					return fmt.Sprintf("updating a copy changed the place it was copied from (or the other way round): %q, later %q", f, l)
+				}
+			}
+		}
+		return ""
+	}
+}
+
+func c09GenUpdates(r *rand.Rand, tier string, emit func(Case)) {
+	for i, n := 0, tierN(tier, 4000, 50000); i < n; i++ {
+		u := c09UpdCase(r)
+		doc := u.doc
+		if doc == "" {
+			doc = `{"keep": [1, {"k": 2}]}`
+		}
+		prog := u.funcs + "{\n" + u.prog + "}\n"
+		emit(Case{Req: RunReq(prog, nil, []File{{Name: "in.json", Data: []byte(doc)}}, true), Fields: []string{"class", "out", "json"},
+			Oracle: c09UpdOracle(u), NonTrivial: c09NT, Meta: metaProg(prog, "input", doc, "template", u.name, "row", u.name)})
+	}
+}
+
 // ---------------------------------------------------------------- failing stores
 
 var c09FailingStores = []struct{ setup, store, doc string }{
@@ -2143,6 +2533,16 @@ func init() {
 					Oracle: c09ShareOracle(c), NonTrivial: func(i Resp) bool { return i["class"] == "ok" }})
 			}
 		},
+	})
+	register(Family{
+		Name: "sharing-positions", Prop: "C09",
+		Rule: "50 expression forms that hand out an existing cell (variable, parenthesised, assignment / chained / compound assignment, ++/--, match expressions yielding a variable / member / assignment, match bindings, member and index chains, document members, functions returning a parameter / global / member, results of pluck / sort / push / pop / popfirst) x 38 storing positions (array and object literal elements at depth 1-2, push arguments, right sides of assignments to variables / members / indices / document paths, chained assignment, call arguments and return values, match bodies inside literals / push / call arguments, sort / pluck results, helper return values, parameters, for-in variables over a literal, match bindings) x scalar and container payloads: every pair once per payload class plus random triples; then 1-3 mutations through the stored copy and 1-3 through the origin, both printed after each. Oracle (implementation only): a scalar origin never changes when the copy is mutated and vice versa; both references to a container print the same contents; (match bindings alias their subject by design: model comparison only); every case compared with the model on class, out and the -o document",
+		Gen:  c09GenSharePos,
+	})
+	register(Family{
+		Name: "update-aliases", Prop: "C09",
+		Rule: "1-3 updates (postfix / prefix ++ --, += -= *= /=, x = x + 1, rebinding to a number / string / null / array) of names that hold a copy of a value living elsewhere: loop variables of every for-in form (array element and index, object key and value, string character and offset; nested) over variables and over the document root and its members, members of pluck results, elements of sort results and popped values, parameters (arguments: variables, elements, members, document members, assignments), bindings of a match on an array literal, values handed out by match expressions and functions, copies taken before the origin is updated; the origin (container, document) is printed before and after every update. Plus 18 assignments whose target index / key shares a variable with a side-effecting right-hand side (a[i] = i++, a[i] = ++i, a[i++] = i, o[k] = (k = 'z'), a[n] = n = n + 1, a[i] = [i++, i++], o.k[i] = i++, a[i][0] = i++, $.list[i] = i++, a[i] = bump(), ...) at start values 0-2. Oracle (implementation only): the origin prints the same before and after; the side-effect assignments print the closed-form result (target addressed before the right side ran); model comparison on class, out and the -o document",
+		Gen:  c09GenUpdates,
 	})
 	register(Family{
 		Name: "failing-stores", Prop: "C09",
